@@ -141,9 +141,11 @@ def run(rep, tier, seed, known, part):
     rep.functions += ["dicom_object::mem::InMemDicomObject::{apply_leaf, apply_change_value_impl, put_element, remove_element, get, invalidate_if_charset_changed}", "dicom_core::header::DataElement::{new, empty, into_parts, vr}"]
     nat = native.Native()
     try:
-        for action in (["Remove", "Empty", "SetVr", "Set", "SetIfMissing", "Replace", "SetStr"] if tier == "quick" else ["Remove", "Empty", "SetVr", "Set", "SetStr", "SetIfMissing", "SetStrIfMissing", "Replace", "ReplaceStr"]):
+        for action in (["Remove", "Empty", "SetVr", "Set", "SetIfMissing", "Replace", "SetStr", "SetEmpty", "ReplaceEmpty"] if tier == "quick" else ["Remove", "Empty", "SetVr", "Set", "SetStr", "SetIfMissing", "SetStrIfMissing", "Replace", "ReplaceStr", "SetEmpty", "ReplaceEmpty"]):
             for n_el in ((1, 2) if tier == "quick" else (0, 1, 2)):
                 if os.environ.get("C13_ONLY") == "nested": continue
+                if os.environ.get("C13_ONLY") == "empty" and not action.endswith("Empty"): continue
+                if action in ("SetEmpty", "ReplaceEmpty") and n_el == 0: continue
                 one(rep, nat, LEAF, action, n_el)
         APPLY = next(n for n in core.FNS if re.search(r"<impl at object/src/mem.rs:[^>]*>::apply$", n) and "InMemDicomObject" in core.FNS[n].ptext)
         rep.functions += ["dicom_object::mem::InMemDicomObject::apply (selector navigation)", "dicom_core::header::DataElement::items_mut, dicom_core::ops::AttributeAction::is_constructive"]
@@ -194,9 +196,17 @@ def one(rep, nat, LEAF, action, n_el):
         for b in newstr.b: ctx.pc.append(And(UGE(b, 0x30), ULE(b, 0x7A)))
         vr_k = pick(ctx, "newvr", 3)
         newvr = ["OW", "UN", "SS"][vr_k]
+        empty_value = action.endswith("Empty") and action != "Empty"           # SetEmpty / ReplaceEmpty: Set / Replace with PrimitiveValue::Empty
+        real_action = action[:-5] if empty_value else action
+        if empty_value:
+            newpv = core.Enum("Empty", [])
+            # the first stored element is a data set sequence with one (empty) item
+            item = core.Struct([BMap(), core.Struct([]), core.Struct([BitVecVal(0xFFFFFFFF, 32)]), False])
+            seqval = core.Enum("Sequence", [core.Struct([core.VecV([item]), core.Struct([BitVecVal(0xFFFFFFFF, 32)])])]); seqval.idx = 1
+            mp.items[0] = (tags[0], core.Struct([core.Struct([tags[0], vr_enum("SQ"), core.Struct([BitVecVal(0xFFFFFFFF, 32)])]), seqval]))
         arg = {"Remove": [], "Empty": [], "SetVr": [vr_enum(newvr)], "Set": [newpv], "SetIfMissing": [newpv], "Replace": [newpv],
-               "SetStr": [newstr], "SetStrIfMissing": [newstr], "ReplaceStr": [newstr]}[action]
-        act = core.Enum(action, arg); act.idx = ACTIONS.index(action)
+               "SetStr": [newstr], "SetStrIfMissing": [newstr], "ReplaceStr": [newstr]}[real_action]
+        act = core.Enum(real_action, arg); act.idx = ACTIONS.index(real_action)
         before = [(tags[k], describe(mp.items[k][1])) for k in range(n_el)]
         r = core.run_fn(LEAF, [core.Ref(core.Cell(obj)), target, act], ctx)
         # which stored element does the target address on this path?
@@ -204,7 +214,7 @@ def one(rep, nat, LEAF, action, n_el):
         for k in range(n_el):
             if ctx.branch(And(target.f[0] == tags[k].f[0], target.f[1] == tags[k].f[1])): hit = k; break
         dict_vr = None
-        if hit is None and action in ("Set", "SetStr", "SetIfMissing", "SetStrIfMissing"):
+        if hit is None and action in ("Set", "SetStr", "SetIfMissing", "SetStrIfMissing", "SetEmpty"):
             dict_vr = ["US", "LO", "SQ", "OB"][pick(ctx, "dict_vr", 4)] if ctx.branch(Bool("dict_knows")) else "UN"
         box["inst"] = (hit, dict_vr, newvr)
         problems, conds = [], []
@@ -213,6 +223,11 @@ def one(rep, nat, LEAF, action, n_el):
         want = list(before)
         is_str = action in ("SetStr", "SetStrIfMissing", "ReplaceStr")
         newdesc_kind, newdesc_payload = ("Str", list(newstr.b)) if is_str else ("U16", [newv])
+        if empty_value:
+            # documented: an empty value given to a sequence attribute yields an empty data set sequence, otherwise an empty primitive value
+            def emptied(vrn): return ("Sequence", 0) if vrn == "SQ" else ("Empty", None)
+            if hit is not None: want[hit] = (want[hit][0], (want[hit][1][0],) + emptied(want[hit][1][0]))
+            elif real_action == "Set": want.append((target, (dict_vr,) + emptied(dict_vr)))
         if action == "Remove":
             if hit is not None: want.pop(hit)
         elif action == "Empty":
@@ -220,6 +235,7 @@ def one(rep, nat, LEAF, action, n_el):
         elif action == "SetVr":
             if hit is not None: want[hit] = (want[hit][0], (newvr,) + want[hit][1][1:])
             else: want.append((target, (newvr, "Empty", None)))
+        elif empty_value: pass
         elif action in ("Set", "SetStr"):
             if hit is not None: want[hit] = (want[hit][0], (want[hit][1][0], newdesc_kind, newdesc_payload))
             else: want.append((target, (dict_vr, newdesc_kind, newdesc_payload)))
@@ -240,6 +256,8 @@ def one(rep, nat, LEAF, action, n_el):
                 if found is None: problems.append("an expected attribute is missing afterwards"); break
                 if found[0] != wd[0]: problems.append("VR %s afterwards, expected %s" % (found[0], wd[0]))
                 if found[1] != wd[1]: problems.append("value kind %s afterwards, expected %s" % (found[1], wd[1]))
+                elif isinstance(wd[2], int) or isinstance(found[2], int):
+                    if found[2] != wd[2]: problems.append("sequence of %s items afterwards, expected %s" % (found[2], wd[2]))
                 elif wd[2] is not None and found[2] is not None:
                     if len(found[2]) != len(wd[2]): problems.append("value of %d items afterwards, expected %d" % (len(found[2]), len(wd[2])))
                     else:
@@ -265,7 +283,7 @@ def one(rep, nat, LEAF, action, n_el):
         expect = {}
         for (wt, wd) in box.get("want_full", []):
             key = "%04x%04x" % (ev(wt.f[0]), ev(wt.f[1]))
-            payload = None if wd[2] is None else ([ev(x) for x in wd[2]])
+            payload = None if wd[2] is None else (wd[2] if isinstance(wd[2], int) else [ev(x) for x in wd[2]])
             expect[key] = (wd[0], wd[1], payload)
         realmap = {}
         if real.startswith("DUMP"):
@@ -280,6 +298,8 @@ def one(rep, nat, LEAF, action, n_el):
                 rv = realmap[k_]
                 if not (box.get("created") and k_ == tkey) and rv[0] != vr_: diffs.append("%s has VR %s, documented %s" % (k_, rv[0], vr_))
                 if rv[1] != kind_: diffs.append("%s holds %s, documented %s" % (k_, rv[1], kind_))
+                elif kind_ == "Sequence":
+                    if str(pay_) != rv[2]: diffs.append("%s sequence of %s items, documented %s" % (k_, rv[2], pay_))
                 elif pay_ is not None:
                     rp_ = [int(x) for x in rv[2].split(",")] if kind_ == "U16" and rv[2] else (list(bytes.fromhex(rv[2])) if kind_ == "Str" else [])
                     if rp_ != pay_: diffs.append("%s value %s, documented %s" % (k_, rp_, pay_))
